@@ -67,6 +67,11 @@ def telescope(sg, rule):
     uev, _ = upd[0]
     D = uev.args[0] if uev.args else None
     db = dict_build(D, s.events) if D is not None else None
+    if D is not None and (D[0] == "owned" or (D[0] == "new" and isinstance(D[2], str) and D[2].startswith("ixai."))):
+        # the contributions are kept in an object of a package class (a dict subclass with behaviour, a record with a
+        # dict inside): what its methods store is not followed here -- no verdict
+        raise AnalysisError(f"{fq}: the per-feature contributions are held by {ir.show_nl(D)[:80]}, an object of a package class; "
+                            f"this bookkeeping is not decided")
     if db is None:
         run.fail(rule, "chain.dict", sg.where(uev.line), fq, f"importance update with {ir.show_nl(D)[:100] if D else None}",
                  "the importance trackers are not updated with the dict of per-feature chain contributions")
